@@ -222,6 +222,17 @@ def check_constructors(acc, pendulum, z, inst, x, b, case):
             ("fromtimestamp(ts,utc)", lambda C: C.fromtimestamp(ts, utc)),
             ("strptime(%z)", lambda C: C.strptime(b.strftime("%Y-%m-%d %H:%M:%S.%f %z"), "%Y-%m-%d %H:%M:%S.%f %z")),
         ]
+    # pendulum's own conversion of a native value: the twin itself is what must come back (tz=None: "attach no zone")
+    for name, fn in (("instance(native,tz=None)", lambda: pendulum.instance(b, tz=None)),
+                     ("instance(native,None)", lambda: pendulum.instance(b, None)),
+                     ("DateTime.instance(native,tz=None)", lambda: P.instance(b, tz=None))) + (
+                         (("instance(native)", lambda: pendulum.instance(b)),) if z is not None else ()):
+        got = _ctor_val(fn, pendulum, P)
+        want = ("ok", obs.fields(b), obs.offset_s(b) if b.tzinfo is not None else None)
+        acc.c["evaluations"] += 1
+        acc.c["transitions"] += 1
+        if got != want:
+            acc.mismatch("constructor", name, dict(case, ctor=name), got, want)
     import warnings
     with warnings.catch_warnings():
         warnings.simplefilter("ignore", DeprecationWarning)
@@ -483,6 +494,13 @@ def check_time(acc, pendulum, u1, u2, tzname):
                 acc.mismatch("time-accessor", name, case, got, want)
         if not (x == b and hash(x) == hash(b)):
             acc.mismatch("time-eq-hash", "twin", case, [x == b, hash(x) == hash(b)], [True, True])
+        for name, fn in (("instance(native,tz=None)", lambda: pendulum.instance(b, tz=None)),
+                         ("Time.instance(native,tz=None)", lambda: pendulum.Time.instance(b, tz=None))):
+            got = _try(lambda: (lambda r: (type(r).__name__, r.isoformat(), r.utcoffset(), r.fold, r == b))(fn()))
+            want = _try(lambda: ("Time", b.isoformat(), b.utcoffset(), b.fold, True))
+            acc.c["evaluations"] += 1
+            if got != want:
+                acc.mismatch("time-constructor", name, case, got, want)
         if type(x.replace(minute=1)) is not pendulum.Time:
             acc.mismatch("result-type", "Time.replace", case, type(x.replace(minute=1)).__name__, "Time")
         for kw in REPLACE_TIME:
